@@ -56,7 +56,8 @@ TRUSTED = [
 ]
 RULE = (
     "hand-written corpus (DESIGN §7.1 witness, cross-method, non-echoing, key-colliding identities, LRU order, capacity 0, "
-    "TTL boundaries in quarter seconds) + generated histories: 2-3 workers, capacities 0..3, token_ttl in {0,2,3,10}, "
+    "TTL boundaries in quarter seconds, a busy stream driven past its call token's expiry) + generated histories (two thirds "
+    "mixed, one third following one busy stream with sticky routing and clock steps below the TTL): 2-3 workers, capacities 0..3, token_ttl in {0,2,3,10}, "
     "<=12 (quick) / <=25 (thorough) steps of tick/init/continuation over 6 stream methods (two exchange methods with "
     "different call-state classes, a producer without call state, one whose state does not decode foreign cursors, one "
     "whose call-state class it does not declare, one whose state never rehydrates) and 8 identities; continuation "
@@ -666,7 +667,8 @@ def evaluate(ctx: Any, dep: Deployment, decodes: list[list[bool]], tags: tuple[s
                              f"identity {IDENTS[st['id']] if st['id'] is not None else None} was served call state minted for "
                              f"{IDENTS[dep.calls[tag]['owner']] if dep.calls[tag]['owner'] is not None else None}; step {st}")
     # ---- K
-    if ctx.driver is None:
+    if ctx.driver is None or len(ctx.mismatches) >= 10:
+        # enough evidence that model and code disagree: keep *searching for a failing input* (O above) without K
         return
     res = ctx.driver.call("C14.run", {"ttl": dep.ttl, "tps": TPS, "declares": DECLARES, "decodes": decodes, "caps": dep.caps,
                                      "t0": 0, "steps": model_steps(dep.steps)})
@@ -773,6 +775,39 @@ def generate(rng: Any, pool: Pool, clock: Clock, max_steps: int) -> Deployment:
     return dep
 
 
+def generate_busy(rng: Any, pool: Pool, clock: Clock, max_steps: int) -> Deployment:
+    """One stream kept busy: every step is shorter than the TTL (so the freshly minted cursor is always valid) while the
+    call token, minted once, ages past its own expiry; requests mostly go to a home worker (sticky routing) and are probed
+    on the others, with a second stream now and then for LRU pressure."""
+    ttl = rng.choice([2, 3, 3, 10])
+    caps = [rng.choice([0, 1, 1, 2, 3]) for _ in range(rng.choice([2, 3, 3]))]
+    dep = Deployment(pool, clock, ttl, caps, fresh_ref=rng.random() < 0.03)
+    ident = rng.randrange(len(IDENTS))
+    m = rng.choice([0, 0, 1, 2, 3])
+    home = rng.randrange(len(caps))
+    if caps[home] == 0 and rng.random() < 0.8:
+        caps_pos = [i for i, c in enumerate(caps) if c > 0]
+        home = rng.choice(caps_pos) if caps_pos else home
+    dep.do({"t": "init", "w": rng.choice([home, home, rng.randrange(len(caps))]), "id": ident, "m": m})
+    last = 0
+    span = ttl * TPS
+    for _ in range(rng.randint(4, max_steps)):
+        r = rng.random()
+        if r < 0.45:
+            # below the TTL, biased to large steps so a few of them cross created_at + ttl
+            d = rng.choice([rng.randint(1, span), rng.randint(max(1, span // 3), span), max(1, span - rng.randint(0, 3))])
+            dep.do({"t": "tick", "d": d})
+        elif r < 0.52 and len(dep.calls) < 4:
+            dep.do({"t": "init", "w": home, "id": ident, "m": rng.choice([0, 1, 3])})
+        else:
+            w = home if rng.random() < 0.7 else rng.randrange(len(caps))
+            before = len(dep.cursors)
+            dep.do({"t": "cont", "w": w, "id": ident, "m": m, "cur": last, "call": 0, "cancel": False, "x": rng.randrange(100)})
+            if len(dep.cursors) > before and dep.cursors[-1] is not None and rng.random() < 0.85:
+                last = len(dep.cursors) - 1  # the client advances; sometimes it retries the old cursor instead
+    return dep
+
+
 def _c(w: int, ident: int | None, m: int, cur: Any, call: Any, cancel: bool = False, x: int = 3) -> dict[str, Any]:
     return {"t": "cont", "w": w, "id": ident, "m": m, "cur": cur, "call": call, "cancel": cancel, "x": x}
 
@@ -827,6 +862,12 @@ def corpus() -> list[tuple[str, int, list[int], list[dict[str, Any]]]]:
     out.append(("own-method-type-and-decode", 10, [2, 2],
                 [_i(0, 2, 4), _c(0, 2, 4, 0, 0), _c(1, 2, 4, 0, 0), _c(1, 2, 4, 0, 0),
                  _i(0, 2, 5), _c(0, 2, 5, 1, 1), _c(1, 2, 5, 1, 1), _c(1, 2, 5, 1, 1), _c(1, 2, 0, 1, 1)]))
+    # a stream kept busy on its home worker in steps below the TTL, probed on a worker that learnt the call through the
+    # miss path and on one that never saw it, until after the call token's own expiry (created_at + ttl)
+    out.append(("busy-stream", 10, [2, 2, 2],
+                [_i(0, 2, 0), _t(3 * S), _c(0, 2, 0, 0, 0), _c(1, 2, 0, 0, 0), _t(3 * S), _c(0, 2, 0, 1, 0), _c(1, 2, 0, 1, 0),
+                 _t(3 * S), _c(0, 2, 0, 3, 0), _c(1, 2, 0, 3, 0), _t(2 * S), _c(0, 2, 0, 5, 0), _c(1, 2, 0, 5, 0), _c(2, 2, 0, 5, 0),
+                 _t(7 * S), _c(0, 2, 0, 5, 0), _c(1, 2, 0, 5, 0), _c(2, 2, 0, 5, 0)]))
     # tokens never expire: entry lifetime is housekeeping (3600 s)
     out.append(("ttl0", 0, [1, 1], [_i(0, 2, 0), _t(3599 * S), _c(0, 2, 0, 0, 0), _t(S), _c(0, 2, 0, 1, 0), _c(1, 2, 0, 1, 0),
                                     _t(3600 * S), _c(1, 2, 0, 2, 0)]))
@@ -888,10 +929,11 @@ def run(ctx: Any) -> None:
             ctx.tag(f"corpus:{name}")
         n = ctx.budget(600, 9000)
         max_steps = 25 if (ctx.tier == "thorough" or ctx.deep) else 12
-        for _ in range(n):
-            dep = generate(ctx.rng, pool, clock, max_steps)
+        for k in range(n):
+            # every third history follows one busy stream (clock steps below the TTL, sticky routing); the rest are mixed
+            dep = (generate_busy if k % 3 == 2 else generate)(ctx.rng, pool, clock, max_steps)
             evaluate(ctx, dep, decodes, tags=("src:generated",))
-            if len(ctx.failures) >= 40 or len(ctx.mismatches) >= 10:
+            if len(ctx.failures) >= 40:
                 break
         if ctx.tier == "thorough":
             # exhaustive small space: 1 stream, 2 workers, capacities {0,1}, every tick pattern around the TTL
